@@ -12,9 +12,9 @@ the execution counts as over:
                helper, a closure, an `if`; not aborted); anything else is JBounded: the waiter can get past it
                while a process still holds the pipe.  The pump itself must read to end-of-stream
                (pump_output_stream: no timeout / select! / sleep / abort / Instant).
-  pty task     run_pty_task loops until the child has been waited for AND the reader thread's channel is closed,
-               `output_closed` is set only at the end of that channel, the reader thread is awaited plainly
-               (pump_join.extract_pty).
+  pty task     the reader thread (spawn_blocking, reads the master until end of output, nothing bounded) is
+               awaited plainly on the way out, no `return` before that - or run_pty_task loops until the child has
+               been waited for AND the reader thread's channel is closed (pump_join.extract_pty).
   shell tool   run_command drives the two captures and child.wait() by ONE body-level tokio::join!, nothing
                bounded or detached (pump_join.extract_shell); capture_stream reads to end-of-stream.
   runner       SessionEngine::new gives the shared ToolRunner a constant number of slots (literal), the runner's
@@ -99,10 +99,36 @@ def main():
     # ---- pty task
     pf, pn = pj.extract_pty(a.repo)
     notes += pn
-    k = "JAwait" if (pf["loop_until_exit_and_output_closed"] and pf["output_closed_only_on_channel_end"]
-                     and pf["reader_thread_awaited_plainly"]) else "JBounded"
+    # the waiter reaches its end only after the pty's output has ended when EITHER its loop runs until the reader
+    # thread's channel is closed (C17's facts) OR the reader thread itself - which reads the master until end of
+    # output - is awaited plainly on the way out (sufficient for C11 on its own: C17 needs more than that)
+    loop_waits = (pf["loop_until_exit_and_output_closed"] and pf["output_closed_only_on_channel_end"])
+    reader_joined = False
+    ysrc = read(a.repo, "crates", "ripd", "src", "tasks", "pty.rs")
+    ybody = fn_body(ysrc, "run_pty_task") if ysrc else None
+    if ybody is None:
+        miss("fn run_pty_task")
+    else:
+        ydep = pj.depths(ybody)
+        hs = []
+        for mm in re.finditer(r"\blet\s+(?:mut\s+)?(\w+)\s*=\s*tokio::task::spawn_blocking\s*\(", ybody):
+            if ydep[mm.start()] != 0:
+                continue
+            inner = ybody[mm.end():pj.match_close(ybody, mm.end() - 1)]
+            if "output_tx" in inner and re.search(r"\breader\s*\.\s*read\s*\(", inner) and not re.search(BOUND, inner):
+                hs.append((mm.group(1), pj.match_close(ybody, mm.end() - 1)))
+        if len(hs) == 1:
+            h, after = hs[0]
+            uses = [mm.start() for mm in re.finditer(r"\b" + re.escape(h) + r"\b", ybody) if mm.start() >= after]
+            reader_joined = (len(uses) == 1 and ydep[uses[0]] == 0
+                             and re.match(re.escape(h) + r"\s*\.\s*await\b", ybody[uses[0]:]) is not None
+                             and not re.search(r"\breturn\b", ybody[after:uses[0]]))
+            notes.append(f"run_pty_task: reader thread `{h}` awaited plainly on the way out: {reader_joined}; loop until output closed: {loop_waits}")
+        else:
+            notes.append(f"run_pty_task: {len(hs)} reader thread(s) found")
+    k = "JAwait" if (reader_joined or (loop_waits and pf["reader_thread_awaited_plainly"])) else "JBounded"
     if k == "JBounded":
-        notes.append(f"run_pty_task does not wait for the end of the pty's output as expected: {pf}")
+        notes.append(f"run_pty_task does not wait for the end of the pty's output: {pf}")
     pty_w = waiter([f"TJoin false {k}", f"TJoin true {k}"])
 
     # ---- shell tool
